@@ -9,7 +9,7 @@ use qrlew::{ast, data_type::DataTyped as _, namer, relation::{Relation, Variant 
 use serde_json::{json, Value as J};
 use std::hash::{Hash, Hasher};
 
-const EXTRA: [(&str, bool); 21] = [
+const EXTRA: [(&str, bool); 25] = [
     ("SELECT random() AS r, a AS a FROM t1", false),
     ("SELECT a AS a FROM t1 WHERE random() < 0.5", false),
     ("SELECT a + 1, b * 2, a + 1 FROM t1", false),
@@ -33,6 +33,11 @@ const EXTRA: [(&str, bool); 21] = [
     ("WITH t AS (SELECT d AS d, sum(2 * a) AS s, count(*) AS n FROM t1 WHERE b > 0 GROUP BY d) SELECT x.d AS d, x.s AS s, y.n AS n FROM t AS x JOIN t AS y ON x.d = y.d", false),
     ("WITH t AS (SELECT b AS b, max(c) AS m FROM t1 GROUP BY b) SELECT x.b AS b, x.m AS m FROM t AS x JOIN t AS y ON x.b = y.b JOIN t AS z ON y.b = z.b", false),
     ("WITH t AS (SELECT DISTINCT a AS a FROM t1 WHERE b > 0) SELECT a AS a FROM t UNION SELECT a AS a FROM t", false),
+    // the same variadic function with different numbers of arguments (anything cached per thread must depend on the arity)
+    ("SELECT concat(d, 'x') AS s FROM t1", false),
+    ("SELECT concat(d, '-', d) AS s FROM t1", false),
+    ("SELECT concat(g) AS s, greatest(a, f, 2) AS m FROM t2", false),
+    ("SELECT concat('a', g, 'b', 'c') AS s, least(a, 1) AS m FROM t2", false),
 ];
 
 pub fn gen(rng: &mut Rng, k: usize, _tier: &str) -> J {
